@@ -31,6 +31,8 @@ TRUSTED_BASE = [
     "axioms: propext, Classical.choice, Quot.sound only (audited per theorem with #print axioms); no native_decide/bv_decide",
     "hand-written executable model in /verif/lean/Model tied to /repo by the correspondence check (sampled inputs)",
     "correspondence harness /verif/harness and its generators",
+    "translators /verif/translate/*.py (Python ast -> Lean terms; the fragment each accepts is stated in its docstring; a refusal is a broken tie): "
+    "theorems named TieA.* are about definitions regenerated from the current source on this run",
     "modelled, not verified: CPython, numpy, numba, sparse.COO, h5py/json, libm, binary64 rounding",
 ]
 
